@@ -229,13 +229,8 @@ def check(repo: Repo, run: Run) -> None:
             reassemblers.append((e, d))
     run.floor("R2", "reassembling decoders", len(reassemblers), 3)
     # the NONE action
-    init = interp.run(tp.module, tp.methods["__init__"], self_cls=tp)
-    none_action = None
-    for ef in init.effects:
-        if ef.kind == "attr-store" and ef.key == "qualifiers_actions" and ef.value.op == "dict":
-            for k, v in ef.value.a[0]:
-                if k == const(0) and v.op == "attr":
-                    none_action = v.a[1]
+    from .c04 import action_of
+    none_action = action_of(repo, interp, 0)
     if none_action is None or none_action not in tp.methods:
         raise AnalysisError("the action for DBG_FUNC_NONE was not found")
     na = tp.methods[none_action]
